@@ -185,6 +185,20 @@ def execute(cfg, V):
         obs.append(eqv('Y', el.Y, ex['Y'], sc + [ex['Y']])); obs.append(eqv('I', el.I, ex['I'], sc + [ex['I']]))
         yz = (not isinstance(ex['Y'], SC)) and ex['Y'] == 0
         if yz: obs.append(Ob('zero admittance is an open branch', 0 if isinf(el.Z) else 1))
+    # a SECOND conversion of the same circuit object with another resolution must follow the new resolution
+    if cfg.get('second', True) and not cfg['kind'].startswith('periodic'):
+        res2 = V.val('res2', 'pos')
+        net2 = cct.transform_circuit(circuit, w, res2)
+        b2 = [b for b in net2.branches if str(b.id) == 'X']
+        ex2 = expect(w, res2)
+        if len(b2) == 1 and ex2 is not None:
+            e2 = b2[0].element
+            if 'Z' in ex2:
+                obs.append(eqv('second conversion Z', e2.Z, ex2['Z'], sc + [ex2['Z']])); obs.append(eqv('second conversion V', e2.V, ex2['V'], sc + [ex2['V']]))
+            else:
+                obs.append(eqv('second conversion Y', e2.Y, ex2['Y'], sc + [ex2['Y']])); obs.append(eqv('second conversion I', e2.I, ex2['I'], sc + [ex2['I']]))
+        else:
+            obs.append(Ob('second conversion yields the branch', 1 if ex2 is not None else 0))
     if cfg.get('twin'):
         obs = [Ob('twin', (el.Z if 'Z' in ex else el.Y) - (ex.get('Z', ex.get('Y'))) - 1, [1])]
     return obs
